@@ -84,6 +84,40 @@ def reachable(db, root):
     return [n] + reachable(db, n[1:33]) + reachable(db, n[33:65])
 
 
+def raw_level_partial(res, db, root, probes, rng):
+    """the four readers of branches.py on a database with one node missing, and on an older root: compared with the
+    raw-level transcription (Model/BranchRaw.lean) which reads the same database"""
+    def call(fn, *a):
+        try:
+            r = fn(*a)
+            return str(r) if isinstance(r, bool) else nodes_txt(list(r))
+        except InvalidKeyError:
+            return "exn InvalidKeyError"
+        except KeyError:
+            return "exn KeyError"
+        except Exception as e:  # noqa
+            return "exn " + type(e).__name__
+    keys = sorted(db.keys())
+    if not keys:
+        return
+    victim = keys[rng.randrange(len(keys))]
+    body = db[victim]
+    roots = [root] + [h for h in keys if h != root][:1]
+    del db[victim]
+    res.emit("bin.dbdel %s" % hx(victim), "ok")
+    try:
+        for rt in roots:
+            res.emit("bin.rnodes %s" % hx(rt), call(get_trie_nodes, db, rt))
+            for k in probes[:5]:
+                res.emit("bin.rbranch %s %s" % (hx(rt), hx(k)), call(get_branch, db, rt, k))
+                res.emit("bin.rexists %s %s" % (hx(rt), hx(k)), call(check_if_branch_exist, db, rt, k))
+                res.emit("bin.rwitness %s %s" % (hx(rt), hx(k)), call(get_witness_for_key_prefix, db, rt, k))
+        res.tags.add("raw:partial-db")
+    finally:
+        db[victim] = body
+        res.emit("bin.dbput %s %s" % (hx(victim), hx(body)), "ok")
+
+
 def run_case(case):
     res = common.CaseResult()
     db = {}
@@ -148,6 +182,7 @@ def run_case(case):
             br, out = None, "exn " + type(e).__name__
             res.fail("get-branch-raised", "get_branch(%r) raised %r" % (k, e))
         res.emit("bin.branch 0 %s" % hx(k), out)
+        res.emit("bin.rbranch %s %s" % (hx(root), hx(k)), out)
         if br is None:
             if out == "exn InvalidKeyError" and (k in model or not rel):
                 res.fail("branch-refused", "get_branch(%r) refused although the key is %s" % (k, "stored" if k in model else "unrelated to stored keys"))
@@ -186,6 +221,7 @@ def run_case(case):
         for p in {k, k[:1]}:
             e = check_if_branch_exist(db, root, p)
             res.emit("bin.exists 0 %s" % hx(p), str(e))
+            res.emit("bin.rexists %s %s" % (hx(root), hx(p)), str(e))
             if e != any(s.startswith(p) for s in model):
                 res.fail("branch-exist-wrong", "check_if_branch_exist(%r) = %r on keys %r" % (p, e, sorted(model)))
         # witness
@@ -198,6 +234,7 @@ def run_case(case):
             w, out = None, "exn " + type(e).__name__
             res.fail("witness-raised", "get_witness_for_key_prefix(%r) raised %r" % (k, e))
         res.emit("bin.witness 0 %s" % hx(k), out)
+        res.emit("bin.rwitness %s %s" % (hx(root), hx(k)), out)
         if w is None:
             if out == "exn InvalidKeyError" and not any(k.startswith(s) and s != k for s in model):
                 res.fail("witness-refused", "witness for %r refused although the prefix does not run past a stored key" % (k,))
@@ -217,6 +254,8 @@ def run_case(case):
                     res.fail("witness-insufficient", "witness for %r cannot answer get(%r): a node is missing" % (k, q))
     tn = list(get_trie_nodes(db, root))
     res.emit("bin.nodes 0", nodes_txt(tn))
+    res.emit("bin.rnodes %s" % hx(root), nodes_txt(tn))
+    raw_level_partial(res, db, root, probes, rng)
     if tn != allnodes:
         res.fail("trie-nodes-wrong", "get_trie_nodes returns %d nodes, %d are reachable from the root" % (len(tn), len(allnodes)))
     res.nontrivial = len(model) >= 2
